@@ -729,8 +729,26 @@ func ruleC01Split(r *Run, p *Program, rule string) {
 	// 4. the old overflow buckets are freed only after the walk finished (not while the chain is still being read)
 	var frees []ssa.Instruction
 	deepInstrs(p, f, func(in ssa.Instruction) {
-		if c, ok := in.(*ssa.Call); ok && calleeKey(&c.Call) == "(*pogreb.index).freeOverflowBucket" {
+		c, ok := in.(*ssa.Call)
+		if !ok {
+			return
+		}
+		if calleeKey(&c.Call) == "(*pogreb.index).freeOverflowBucket" {
 			frees = append(frees, c)
+			return
+		}
+		// by what it does: a call (made by split itself) of a function that appends to the free list
+		if g := c.Call.StaticCallee(); g != nil && g.Blocks != nil && c.Parent() == f {
+			for _, st := range storesToField(p, "pogreb.index.freeBucketOffs") {
+				if st.Parent() != g {
+					continue
+				}
+				if ac, ok := strip(st.Val).(*ssa.Call); ok {
+					if b, ok := ac.Call.Value.(*ssa.Builtin); ok && b.Name() == "append" {
+						frees = append(frees, c)
+					}
+				}
+			}
 		}
 	})
 	if r.anchor(rule, "call to freeOverflowBucket in split", len(frees) > 0) {
@@ -879,17 +897,26 @@ func checkSlotLiteral(r *Run, p *Program, rule string, f *ssa.Function, appendKe
 // the type whose method is the chain-iteration step.
 func isNewChainIterCall(c *ssa.CallCommon) bool {
 	f := c.StaticCallee()
-	if f == nil || f.Pkg == nil || f.Pkg.Pkg.Path() != modPath || f.Signature.Recv() == nil {
+	if f == nil || f.Pkg == nil || f.Pkg.Pkg.Path() != modPath {
 		return false
 	}
-	if f.Signature.Results().Len() != 1 || f.Signature.Params().Len() != 1 {
+	// a method of *index taking the bucket number, or a free function taking (*index, bucket number)
+	recvT := ""
+	nparams := f.Signature.Params().Len()
+	if f.Signature.Recv() != nil {
+		recvT = typeName(f.Signature.Recv().Type())
+	} else if nparams >= 1 {
+		recvT = typeName(f.Signature.Params().At(0).Type())
+		nparams--
+	}
+	if f.Signature.Results().Len() != 1 || nparams != 1 {
 		return false
 	}
 	rt := f.Signature.Results().At(0).Type()
 	ms := f.Prog.MethodSets.MethodSet(rt)
 	for i := 0; i < ms.Len(); i++ {
 		if isChainNextFn(f.Prog.MethodValue(ms.At(i))) {
-			return typeName(f.Signature.Recv().Type()) == "*pogreb.index"
+			return recvT == "*pogreb.index"
 		}
 	}
 	return false
